@@ -56,6 +56,20 @@ def specFArgs (env : Env) : FArgs → ModArg
   | .tup as => .tup (as.map fun a => .safe (opndText (evalAtom env a)))
   | .map kvs => .map (kvs.map fun p => (p.1, .safe (opndText (evalAtom env p.2))))
 
+/-- the author's pieces with the operands in their holes, as events: literal text and operands
+    are character data, tags are elements whose attribute values are the literal values and the operands -/
+def fillEvents : List FPiece → List (List Char) → Option (List Ev)
+  | [], [] => some []
+  | [], _ :: _ => none
+  | .text s :: rest, as => (fillEvents rest as).map (.text s false :: ·)
+  | .hole :: _, [] => none
+  | .hole :: rest, a :: as => (fillEvents rest as).map (.text a false :: ·)
+  | .open t attrs :: rest, as =>
+      match fillAttrs attrs as with
+      | some (at_, as') => (fillEvents rest as').map (.start t at_ :: ·)
+      | none => none
+  | .close t :: rest, as => (fillEvents rest as).map (.end_ t :: ·)
+
 /-- what a text site must contribute: one run of character data (or the builder's elements) -/
 def expectedSite (env : Env) : SExpr → List Ev
   | .v e => [.text (valText (evalV env e)) false]
@@ -68,6 +82,11 @@ def expectedSite (env : Env) : SExpr → List Ev
       match mMod (fun _ s => s) f (specFArgs env args) with
       | .ok s => [.text s false]
       | .error _ => []
+  | .fmtp ps as =>
+      -- the author's elements with the operands' own text in the holes
+      match fillEvents ps (as.map fun a => opndText (evalAtom env a)) with
+      | some evs => evs
+      | none => []
   | .build b => expectedB env b
   | .frag kids => expectedBs env kids
 
